@@ -2,11 +2,49 @@ use crate::out::Out;
 use crate::rng::Rng;
 
 pub mod ber;
+pub mod codecs;
+pub mod entry;
+pub mod escape;
+pub mod faults;
+pub mod filter;
+pub mod framing;
+pub mod hostile;
+pub mod ids;
+pub mod leaks;
+pub mod paged;
+pub mod requests;
+pub mod results;
+pub mod routing;
+pub mod setup;
+pub mod streams;
+pub mod sync;
+pub mod timeouts;
+pub mod tls;
+pub mod url;
 
 pub fn run(lane: &str, thorough: bool, rng: Rng, out: Out, extra: &[String]) -> Result<(), String> {
     let _ = extra;
     match lane {
         "ber" => ber::run(thorough, rng, out),
+        "codecs" => codecs::run(thorough, rng, out),
+        "entry" => entry::run(thorough, rng, out),
+        "escape" => escape::run(thorough, rng, out),
+        "faults" => faults::run(thorough, rng, out),
+        "filter" => filter::run(thorough, rng, out),
+        "framing" => framing::run(thorough, rng, out),
+        "hostile" => hostile::run(thorough, rng, out),
+        "ids" => ids::run(thorough, rng, out),
+        "leaks" => leaks::run(thorough, rng, out),
+        "paged" => paged::run(thorough, rng, out),
+        "requests" => requests::run(thorough, rng, out),
+        "results" => results::run(thorough, rng, out),
+        "routing" => routing::run(thorough, rng, out),
+        "setup" => setup::run(thorough, rng, out),
+        "streams" => streams::run(thorough, rng, out),
+        "sync" => sync::run(thorough, rng, out),
+        "timeouts" => timeouts::run(thorough, rng, out),
+        "tls" => tls::run(thorough, rng, out),
+        "url" => url::run(thorough, rng, out),
         _ => return Err(format!("unknown lane {}", lane)),
     }
     Ok(())
